@@ -168,3 +168,95 @@ theorem gumbelFitTruncated_post (xs : Array α) (phi : α) (st : St) (ps : Array
           exact ⟨by simp, rfl, fun _ => rfl, fun hc => by cases hc⟩
 
 end EaselModel.Stats
+
+namespace EaselModel.Stats
+open Num
+variable {α : Type} [Num α]
+
+/-- the generalized-Newton loop of `gam_fitting_engine`: status ∈ {eslOK, eslENOHALT, eslERANGE}; eslOK only when BOTH
+    `esl_DCompare(old_tau, tau, 1e-6, 1e-6)` and `esl_DCompare(old_fx, fx, 1e-6, 1e-6)` held, before the 100th iteration -/
+theorem gamLoop_post (xbar logxbar : α) : ∀ (k iter : Nat) (tau fx : α), iter + k = 100 →
+    let r := gamLoop xbar logxbar k iter tau fx
+    (r.1 = .ok ∨ r.1 = .enohalt ∨ r.1 = .erange) ∧
+    (r.1 = .ok → dcompare r.2.2.1 r.2.1 (1e-6 : α) (1e-6 : α) = true ∧ dcompare r.2.2.2.2.1 r.2.2.2.1 (1e-6 : α) (1e-6 : α) = true ∧ r.2.2.2.2.2 < 100) := by
+  intro k
+  induction k with
+  | zero => intro iter tau fx _; unfold gamLoop; exact ⟨Or.inr (Or.inl rfl), fun h => by cases h⟩
+  | succ k ih =>
+    intro iter tau fx hinv
+    unfold gamLoop
+    split
+    · rename_i psi tg _ _
+      simp only []
+      split
+      · exact ⟨Or.inr (Or.inr rfl), fun h => by cases h⟩
+      · rename_i fx' _
+        split
+        · exact ih _ _ _ (by omega)
+        · rename_i hcont
+          split
+          · exact ⟨Or.inr (Or.inl rfl), fun h => by cases h⟩
+          · rename_i h100
+            refine ⟨Or.inl rfl, fun _ => ?_⟩
+            simp only [Bool.and_eq_true, Bool.or_eq_true, Bool.not_eq_true', decide_eq_true_eq, not_and, not_or] at hcont
+            simp only [beq_iff_eq] at h100
+            by_cases hl : iter + 1 < 100
+            · have := hcont hl
+              refine ⟨?_, ?_, hl⟩
+              · cases hd : dcompare tau (one / (one / tau + (logxbar - log xbar + log tau - psi) / (tau - tau * tau * tg))) (1e-6 : α) (1e-6 : α)
+                · exact absurd hd (by simpa using this.1)
+                · rfl
+              · cases hd : dcompare fx fx' (1e-6 : α) (1e-6 : α)
+                · exact absurd hd (by simpa using this.2)
+                · rfl
+            · exfalso; omega
+    · exact ⟨Or.inr (Or.inr rfl), fun h => by cases h⟩
+
+end EaselModel.Stats
+
+namespace EaselModel.Stats
+open Num
+variable {α : Type} [Num α]
+
+/-- `gam_fitting_engine` (hence `esl_gam_FitComplete`, `esl_gam_FitCountHistogram` after their argument checks): at most 100
+    rounds; status ∈ {eslOK, eslENOHALT, eslERANGE}; eslOK ⇒ `(lambda, tau) = (tau/xbar, tau)` with both convergence tests passed -/
+theorem gamFittingEngine_post (xbar logxbar : α) (st : St) (ps : Array α) (h : gamFittingEngine xbar logxbar = .res st ps) :
+    (st = .ok ∨ st = .enohalt ∨ st = .erange) ∧ ps.size = 2 ∧
+    (st = .ok → ∃ tau oldtau fx oldfx : α, ps = #[tau / xbar, tau] ∧ dcompare oldtau tau (1e-6 : α) (1e-6 : α) = true ∧
+        dcompare oldfx fx (1e-6 : α) (1e-6 : α) = true) := by
+  have hp := gamLoop_post xbar logxbar 100 0 ((0.5 : α) / (log xbar - logxbar)) (one / zero) (by omega)
+  simp only [] at hp
+  unfold gamFittingEngine at h
+  simp only [] at h
+  rcases hr : gamLoop xbar logxbar 100 0 ((0.5 : α) / (log xbar - logxbar)) (one / zero) with ⟨st', tau, oldtau, fx, oldfx, it⟩
+  rw [hr] at h hp
+  cases st' with
+  | ok =>
+    simp only [] at h
+    injection h with h1 h2; subst h1; subst h2
+    exact ⟨Or.inl rfl, rfl, fun _ => ⟨tau, oldtau, fx, oldfx, rfl, (hp.2 rfl).1, (hp.2 rfl).2.1⟩⟩
+  | enohalt => simp only [] at h; injection h with h1 h2; subst h1; subst h2; exact ⟨Or.inr (Or.inl rfl), rfl, fun hc => by cases hc⟩
+  | erange => simp only [] at h; injection h with h1 h2; subst h1; subst h2; exact ⟨Or.inr (Or.inr rfl), rfl, fun hc => by cases hc⟩
+  | einval => exfalso; rcases hp.1 with c | c | c <;> cases c
+  | emem => exfalso; rcases hp.1 with c | c | c <;> cases c
+  | enoresult => exfalso; rcases hp.1 with c | c | c <;> cases c
+
+end EaselModel.Stats
+
+namespace EaselModel.Stats
+open Num
+variable {α : Type} [Num α]
+
+/-- `esl_wei_FitCompleteBinned` (model): a result (no out-of-range bin index) has a status in {eslOK, eslENOHALT, eslERANGE, eslENORESULT},
+    `mu` is the documented location (`xmin`, or the lower bound of bin `imin` for rounded data), and eslOK ⇒ the minimiser's stopping rule held -/
+theorem weiFitBinned_post (h : Hist α) (st : St) (ps : Array α) (hr : weiFitCompleteBinned h = .res st ps) :
+    (st = .ok ∨ st = .enohalt ∨ st = .erange ∨ st = .enoresult) ∧ ps.size = 3 ∧
+    ps.getD 0 zero = (if h.isRounded then h.lbound h.imin else h.xmin) := by
+  unfold weiFitCompleteBinned at hr
+  split at hr
+  · cases hr
+  · simp only [] at hr
+    obtain ⟨a, b, c, _⟩ := fit2_post _ _ _ (cgd_post _ _ _ _) st ps hr
+    exact ⟨a, c, b⟩
+
+end EaselModel.Stats
